@@ -40,10 +40,10 @@ theorem codec_cases (hP : P.Lawful) (d : Desc) (hd : d.wf = true) (v : PyVal P)
     exact codec_enum_member a w e n c m x hd.1 hv.1 hv.2
   | naive n =>
     cases kind <;> simp [valid] at hv
-    exact codec_dt_naive hP a w n (by simpa using hv)
+    exact codec_dt_naive hP a w n hv
   | aware t =>
     cases kind <;> simp [valid] at hv
-    exact codec_dt_aware hP a w t
+    exact codec_dt_aware hP a w t hv
   | selector r =>
     cases kind <;> simp [valid] at hv
     exact codec_selector a w r hv
